@@ -26,7 +26,9 @@ MUTATING_METHODS = {"scale": "inplace", "to_complex": "inplace", "normalize": No
                     "push_cano_to_child": None, "compress_node": None, "merge_to_parent": None, "merge_to_child": None, "try_swap_site": None,
                     "expand_bond_dimension": None, "clear": None}
 MODIFYING_CALLEES = {"evolve_tdvp_ps": 0, "evolve_tdvp_ps2": 0, "_tdvp_ps_forward": 0, "_tdvp_ps_backward": 0, "compress_recursion": 1, "normalize": 0,
-                     "optimize_mps": 0, "method": 0}
+                     "optimize_mps": 0, "method": 0,
+                     # _sum(list): reduce(add) over ONE summand returns the summand itself, which is then canonicalised and compressed in place
+                     "_sum": 0}
 
 
 def _inplace_true(call):
